@@ -452,7 +452,7 @@ def to_coq(case, o):
 
         def okc(xs, ys, zs, obs, tol, label):
             data = 'cmi_data %s_t 3%%nat %s %s %s' % (nm, xs, ys, zs)
-            args = '(match %s with Some r => Some (stage r) | None => None end) false %s %s' % (data, lib.qf(obs), lib.qz(tol))
+            args = '(stage (%s)) false %s %s' % (data, lib.qf(obs), lib.qz(tol))
             add(('okgoal ' + args, 'fargoal ' + args), label)
         okc(X, T, '[]', R, Fraction(1, 10 ** 8), 'reported rate %r = I(X;T) of the joint' % R)
         okc(X, Y, T, D, Fraction(1, 10 ** 7), 'reported distortion %r = E D(p(Y|x) || q(Y|t)) = I(X;Y|T) of the joint' % D)
